@@ -106,6 +106,38 @@ def header_of(payload):
     return [int.from_bytes(payload[o:o + w], "little") for o, w in zip(HO, HW)]
 
 
+def slow_decode(payload):
+    """True when some constant entry resolves to a matrix type whose payload starts with rows = 0 and a huge column count:
+    Matrix<T>::from_le then runs `for _c in 0..cols { for _r in 0..0 {} }` for up to 2^32 iterations before it panics
+    (16 s for cols = 2^30 in the dev build: a 318-byte file; part of the known finding const-decoder-panic, but too close to
+    the stall limit of the driver to be observed reliably, so such files are not generated)."""
+    try:
+        h = header_of(payload)
+        toff, ccount, tbloff, bloboff, bloblen = h[9], h[10], h[11], h[13], h[14]
+        tags = []
+        pos = toff
+        tcount = int.from_bytes(payload[pos:pos + 4], "little"); pos += 4
+        for t in range(min(tcount, 4096)):
+            if pos + 12 > len(payload):
+                break
+            tags.append(int.from_bytes(payload[pos:pos + 2], "little"))
+            pos += 12 + int.from_bytes(payload[pos + 8:pos + 12], "little")
+        for i in range(min(ccount, 4096)):
+            e = tbloff + 24 * i
+            if e + 24 > len(payload):
+                break
+            tid = int.from_bytes(payload[e:e + 4], "little")
+            off = int.from_bytes(payload[e + 8:e + 16], "little"); ln = int.from_bytes(payload[e + 16:e + 24], "little")
+            if tid < len(tags) and 21 <= tags[tid] <= 37 and ln >= 8 and off + ln <= bloblen:
+                b = bloboff + off
+                rows = int.from_bytes(payload[b:b + 4], "little"); cols = int.from_bytes(payload[b + 4:b + 8], "little")
+                if rows == 0 and cols > 10 ** 6:
+                    return True
+    except Exception:
+        return False
+    return False
+
+
 def section_fields(payload):
     """(offset, width, name, interesting values) of the fields inside the sections of a well-formed file"""
     h = header_of(payload)
@@ -293,13 +325,13 @@ def generate(tier, rng):
         seen_f.add(f)
         payload = f[:-4]
         fields = section_fields(payload)
-        budget = 260 if quick else 6000
+        budget = 260 if quick else 1500
         muts = [(o, w, name, v) for (o, w, name, vs) in fields for v in vs]
         if len(muts) > budget:
             muts = rng.sample(muts, budget)
         for (o, w, name, v) in muts:
             g = bytearray(payload); g[o:o + w] = (v & ((1 << (8 * w)) - 1)).to_bytes(w, "little")
-            if bytes(g) == payload:
+            if bytes(g) == payload or slow_decode(bytes(g)):
                 continue
             b = with_crc(bytes(g))
             yield case(sx(["any", q(b.hex())]), b.hex(), dict(stream="struct-section", field=name))
